@@ -374,11 +374,11 @@ function main() {
     try { rs = observePair(c); } catch (e) { rs = [{ id: c.id, env: -1, skip: 'runner error: ' + (e && e.stack || e) }]; }
     if (c.ast) {
       if (!astmod) astmod = require(path.join(__dirname, 'c01_ast.js'));
-      try { rs.push(astmod.project(c, acorn)); } catch (e) { rs.push({ id: c.id, env: -2, skip: 'ast: ' + e.message }); }
+      try { rs.push(astmod.project(c, acorn, module.exports)); } catch (e) { rs.push({ id: c.id, env: -2, kind: 'ast', frag: false, skip: '', why: 'projector error: ' + (e && e.stack || e) }); }
     }
     fs.writeSync(fd, rs.map((r) => JSON.stringify(r)).join('\n') + '\n');
   }
   fs.closeSync(fd);
 }
+module.exports = { analyze, parseProgram, observePair, execute, makeEnv, BUILTINS, mulberry32, hashStr };
 if (require.main === module) main();
-module.exports = { analyze, parseProgram, observePair, execute, makeEnv };
